@@ -11,7 +11,11 @@ Streams (DESIGN section 7, C07):
   op        single-opcode conformance: every table entry on stacks of depth <= 7 over a small data
             alphabet (exhaustive to depth 3, thorough: 4) plus numeric boundary operands; both dispatch
             tables for the model, the legacy table against the spec
-  timelock  the CLTV / CSV boundary product (locktime x sequence x version x operand)
+  timelock  the CLTV / CSV boundary product (locktime x sequence x version x operand), every case also inside a
+            transaction of 2-3 inputs with the evaluated input at every index and the OTHER inputs' sequences drawn
+            independently (final / non-final / relative-locked): request prefix `ctx <inputs> <index> <other sequences>`
+            (implementation side only: the model and the specification see the spent input's sequence, which is all
+            CheckLockTime / CheckSequence may depend on); a share of the single-opcode cases and of the programs too
   prog      random programs of <= 40 operations from a grammar with balanced conditionals
   reuse     object-reuse histories: every third generated program (and all P2SH / witness-program shapes) is
             evaluated two or three times on ONE Script object and ONE Tx; every outcome is compared with the
@@ -142,10 +146,36 @@ def _patch():
     _state["patched"] = True
 
 
+# the transaction context of the implementation run: number of inputs, index of the evaluated input, sequences of the
+# other inputs (set by a `ctx` request prefix; the default is the single-input transaction)
+_CTX = {"n": 1, "idx": 0, "others": []}
+OTHER_SEQS = [0xFFFFFFFF, 0xFFFFFFFF, 0xFFFFFFFE, 0, 5, 1234, 2 ** 22 + 5, 2 ** 31 + 1, 0xFFFFFFFD]
+
+
 def make_tx(locktime, sequence, version):
+    """the transaction of the current context: the evaluated input (sequence `sequence`) at index _CTX['idx']"""
     from buidl.tx import Tx, TxIn, TxOut
     from buidl.script import Script
-    return Tx(version, [TxIn(b"\x00" * 32, 0, sequence=sequence)], [TxOut(1, Script())], locktime)
+    others = list(_CTX["others"])
+    ins = []
+    for j in range(_CTX["n"]):
+        sq = sequence if j == _CTX["idx"] else others.pop(0)
+        ins.append(TxIn(bytes([j]) * 32, j, sequence=sq))
+    return Tx(version, ins, [TxOut(1, Script())], locktime)
+
+
+def rand_ctx(rng):
+    """`ctx <inputs> <index> <other sequences> ` with 2-3 inputs, or '' (one input)"""
+    n = rng.choice([2, 2, 3])
+    idx = rng.randrange(n)
+    return f"ctx {n} {idx} " + ",".join(str(rng.choice(OTHER_SEQS)) for _ in range(n - 1)) + " "
+
+
+def strip_ctx(line):
+    """the request the driver sees: the model and the specification take the spent input's sequence only"""
+    if line.startswith("ctx "):
+        return line.split(" ", 4)[4]
+    return line
 
 
 def parse_cmds(toks):
@@ -197,7 +227,7 @@ def _impl(t):
         elif code in (107, 108):
             ok = operation(stack, alt)
         elif code in _TX_OPS:
-            ok = operation(stack, make_tx(lt, seq, ver), 0)
+            ok = operation(stack, make_tx(lt, seq, ver), _CTX["idx"])
         else:
             ok = operation(stack)
         if not ok:
@@ -210,7 +240,7 @@ def _impl(t):
         lt, seq, ver = int(rest[0]), int(rest[1]), int(rest[2])
         cmds, rest = parse_cmds(rest[3:])
         _state["rot6"] = False
-        return "ACCEPT" if Script(cmds).evaluate(make_tx(lt, seq, ver), 0) else REJECT
+        return "ACCEPT" if Script(cmds).evaluate(make_tx(lt, seq, ver), _CTX["idx"]) else REJECT
     if op == "evalseq":
         # evalseq <cfg> <times> <locktime> <sequence> <version> <commands>: ONE Script object and ONE Tx, evaluated
         # `times` times -> "<outcome> ... args=same" | "... args=changed@<evaluation>:<what>"
@@ -222,7 +252,7 @@ def _impl(t):
         for i in range(k):
             _state["rot6"] = False
             try:
-                ok = script.evaluate(tx, 0)
+                ok = script.evaluate(tx, _CTX["idx"])
             except MachineryError:
                 raise
             except Exception:
@@ -245,9 +275,10 @@ def _args_snapshot(script, tx):
         ser = tx.serialize()
     except Exception as e:
         ser = "raise " + type(e).__name__
-    ti = tx.tx_ins[0]
-    return (list(script.commands), ser, list(ti.script_sig.commands), list(ti.witness.items),
-            (tx.version, int(tx.locktime), int(ti.sequence), ti.prev_tx, ti.prev_index, len(tx.tx_ins), len(tx.tx_outs)))
+    return (list(script.commands), ser, [list(ti.script_sig.commands) for ti in tx.tx_ins],
+            [list(ti.witness.items) for ti in tx.tx_ins],
+            (tx.version, int(tx.locktime), [(int(ti.sequence), ti.prev_tx, ti.prev_index) for ti in tx.tx_ins],
+             len(tx.tx_outs)))
 
 
 def seq_expected(outcome, k):
@@ -256,12 +287,17 @@ def seq_expected(outcome, k):
 
 def impl_line(line):
     t = line.split(" ")
+    if t[0] == "ctx":
+        _CTX.update(n=int(t[1]), idx=int(t[2]), others=[int(x) for x in t[3].split(",") if x])
+        t = t[4:]
     try:
         return _impl(t)
     except (UnknownOp, MachineryError):
         raise
     except Exception:
         return REJECT
+    finally:
+        _CTX.update(n=1, idx=0, others=[])
 
 
 def _impl_many(lines):
@@ -652,11 +688,11 @@ def run(ctx):
         stacks += frontier
     op_lines = []   # (kind, model line, spec line or None, code, depth)
 
-    def add_op(code, tap, stack, alt=(), items=None, lt=0, seq=0, ver=1):
+    def add_op(code, tap, stack, alt=(), items=None, lt=0, seq=0, ver=1, pre=""):
         body = f"{code} {lt} {seq} {ver} {blist(stack)} {blist(list(alt))}"
         ml = f"op r {1 if tap else 0} {body}" + ("" if items is None else " " + fmt_cmds(items))
         sl = None if (tap or items is not None) else f"spec_op {body}"
-        op_lines.append(("op", ml, sl, code, len(stack)))
+        op_lines.append(("op", ml, sl, code, len(stack), pre))
 
     for code in legacy + UNKNOWN_CODES:
         if code in SIG_OPS[1:5]:
@@ -669,7 +705,8 @@ def run(ctx):
             depth = rng.choice([4, 5, 6, 7, 7])
             s = [rng.choice(ALPHABET) if rng.random() < 0.5 else rand_elem(rng) for _ in range(depth)]
             alt = [rand_elem(rng) for _ in range(rng.choice([0, 0, 1, 3]))] if code in (107, 108) else []
-            add_op(code, False, s, alt, lt=rng.choice(LOCKTIMES), seq=rng.choice(SEQUENCES), ver=rng.choice(VERSIONS))
+            add_op(code, False, s, alt, lt=rng.choice(LOCKTIMES), seq=rng.choice(SEQUENCES), ver=rng.choice(VERSIONS),
+                   pre=rand_ctx(rng) if (code in (177, 178) and rng.random() < 0.7) else "")
         if code in UNARY_OPS + BINARY_OPS + [165, 121, 122, 115, 105, 136, 157]:
             for _ in range(ctx.n(300, 3000)):
                 depth = rng.choice([1, 2, 3, 3, 4, 5])
@@ -688,7 +725,8 @@ def run(ctx):
             add_op(code, True, s, lt=1234, seq=1234, ver=2)
         for _ in range(ctx.n(20, 200)):
             s = [rand_elem(rng) for _ in range(rng.choice([3, 4, 6, 7]))]
-            add_op(code, True, s, lt=rng.choice(LOCKTIMES), seq=rng.choice(SEQUENCES), ver=rng.choice(VERSIONS))
+            add_op(code, True, s, lt=rng.choice(LOCKTIMES), seq=rng.choice(SEQUENCES), ver=rng.choice(VERSIONS),
+                   pre=rand_ctx(rng) if (code in (177, 178) and rng.random() < 0.7) else "")
     # op_if / op_notif as functions on (stack, items)
     pg = ProgGen(rng, multi_else=True, junk=True)
     for _ in range(ctx.n(4000, 40000)):
@@ -703,9 +741,12 @@ def run(ctx):
     spc_lines = [l[2] for l in op_lines if l[2] is not None]
     both = batch_parallel(drv, [l[1] for l in op_lines] + spc_lines, workers=DW)
     mod, spc_it = both[:len(op_lines)], iter(both[len(op_lines):])
-    impls = impl_parallel([l[1] for l in op_lines], W)
-    for (kind, ml, sl, code, depth), m, (impl, _) in zip(op_lines, mod, impls):
+    impls = impl_parallel([l[5] + l[1] for l in op_lines], W)
+    for (kind, ml, sl, code, depth, pre), m, (impl, _) in zip(op_lines, mod, impls):
         s = next(spc_it) if sl is not None else None
+        if pre:
+            rec.count("op:multi_input_context")
+            ml, sl = pre + ml, (pre + sl if sl is not None else None)
         key = ml
         n07f = m == "REJECT-VALUEERROR"
         if n07f:
@@ -742,12 +783,18 @@ def run(ctx):
                     for odd in (b"\x80", b"\x00", b"\xd2\x04\x00", b"\xd2\x04\x00\x00\x00", b"\xd2\x04\x00\x00\x00\x00",
                                 b"\x00\x00\x00\x80\x00\x00"):
                         tl.append((code, lt, seq, ver, [b"\x07", odd], None))
-    tl_m = [f"op r 0 {c} {lt} {seq} {ver} {blist(s)} 0" for c, lt, seq, ver, s, _ in tl]
-    tl_s = [f"spec_op {c} {lt} {seq} {ver} {blist(s)} 0" for c, lt, seq, ver, s, _ in tl]
+    # every case once in the single-input transaction and once among 2-3 inputs (evaluated input at a random index,
+    # the other inputs' sequences independent of it)
+    tl = [c + ("",) for c in tl] + [c + (rand_ctx(rng),) for c in tl]
+    tl_m = [f"op r 0 {c} {lt} {seq} {ver} {blist(s)} 0" for c, lt, seq, ver, s, _, _ in tl]
+    tl_s = [f"spec_op {c} {lt} {seq} {ver} {blist(s)} 0" for c, lt, seq, ver, s, _, _ in tl]
     both = batch_parallel(drv, tl_m + tl_s, workers=DW)
     mod, spc = both[:len(tl_m)], both[len(tl_m):]
-    impls = impl_parallel(tl_m, W)
-    for (code, lt, seq, ver, s, opnd), ml, sl, m, sp, (impl, _) in zip(tl, tl_m, tl_s, mod, spc, impls):
+    impls = impl_parallel([c[6] + l for c, l in zip(tl, tl_m)], W)
+    for (code, lt, seq, ver, s, opnd, pre), ml, sl, m, sp, (impl, _) in zip(tl, tl_m, tl_s, mod, spc, impls):
+        ml, sl = pre + ml, pre + sl
+        if pre:
+            rec.count(f"timelock{code}:inputs={pre.split(' ')[1]}:index={pre.split(' ')[2]}")
         if m == "REJECT-VALUEERROR":
             m = REJECT
         in_scope = _spec_scope(sp) and (opnd is None or opnd <= 2 ** 32 - 1)
@@ -770,12 +817,16 @@ def run(ctx):
         """run one chunk of programs (kind, cmds, locktime, sequence, version) on both sides and record"""
         if not progs:
             return
-        m_lines = [f"eval {CFG['tok']} {lt} {seq} {ver} {fmt_cmds(c)}" for _, c, lt, seq, ver in progs]
-        s_lines = [f"spec_eval {lt} {seq} {ver} {fmt_cmds(c)}" for _, c, lt, seq, ver in progs]
+        progs = [p if len(p) == 6 else p + ("",) for p in progs]
+        m_lines = [f"eval {CFG['tok']} {lt} {seq} {ver} {fmt_cmds(c)}" for _, c, lt, seq, ver, _ in progs]
+        s_lines = [f"spec_eval {lt} {seq} {ver} {fmt_cmds(c)}" for _, c, lt, seq, ver, _ in progs]
         both = batch_parallel(drv, m_lines + s_lines, workers=DW)
         mod, spc = both[:len(m_lines)], both[len(m_lines):]
-        impls = impl_parallel(m_lines, W)
-        for (kind, cmds, lt, seq, ver), ml, sl, m, sp, (impl, rot6) in zip(progs, m_lines, s_lines, mod, spc, impls):
+        impls = impl_parallel([p[5] + l for p, l in zip(progs, m_lines)], W)
+        for (kind, cmds, lt, seq, ver, pre), ml, sl, m, sp, (impl, rot6) in zip(progs, m_lines, s_lines, mod, spc, impls):
+            ml, sl = pre + ml, pre + sl
+            if pre:
+                rec.count("prog:multi_input_context")
             mo, trig, ve = m.split(" ")
             if mo == "FUEL":
                 raise MachineryError(f"model ran out of fuel on: {ml[:300]}")
@@ -802,7 +853,7 @@ def run(ctx):
             reuse_n[0] += 1
             if kind in ("prog_p2sh", "prog_trigger") or reuse_n[0] % 3 == 0:
                 k = 2 + (reuse_n[0] // 3) % 2
-                reuse.append((kind, f"evalseq {CFG['tok']} {k} {lt} {seq} {ver} {fmt_cmds(cmds)}", k,
+                reuse.append((kind, f"{pre}evalseq {CFG['tok']} {k} {lt} {seq} {ver} {fmt_cmds(cmds)}", k,
                               sp if scope else mo, scope, len(cmds)))
         # ---- object reuse: the same Script object and the same Tx evaluated k times
         seq_impls = impl_parallel([r[1] for r in reuse], W)
@@ -842,7 +893,7 @@ def run(ctx):
             tlo = [lt, lt + 1, max(0, lt - 1), seq & 0x40FFFF, (seq & 0x40FFFF) + 1, max(0, (seq & 0x40FFFF) - 1),
                    2 ** 31 + 5, 500000000, 0, -1, 2 ** 22 + 3]
             cmds = g.program(rng.choice([5, 10, 20, 40, 40]), tlo)
-            progs.append((kind, cmds, lt, seq, ver))
+            progs.append((kind, cmds, lt, seq, ver, rand_ctx(rng) if rng.random() < 0.3 else ""))
             if len(progs) >= CHUNK:
                 flush(progs)
                 progs = []
@@ -867,6 +918,16 @@ def run(ctx):
             progs.append(("prog_trigger", [first, h], 0, 0, 1))
             progs.append(("prog_trigger", [first, h, 81], 0, 0, 1))
             progs.append(("prog_trigger", [81, first, h], 0, 0, 1))
+    # CLTV / CSV programs on input i of 2-3 inputs: the spent input final while another is not, and the reverse
+    for n_in in (2, 3):
+        for idx in range(n_in):
+            for own in (0xFFFFFFFF, 0xFFFFFFFE, 5):
+                for oth in (0xFFFFFFFF, 0xFFFFFFFE, 5, 2 ** 31 + 1):
+                    pre = f"ctx {n_in} {idx} " + ",".join([str(oth)] * (n_in - 1)) + " "
+                    for ver in (1, 2):
+                        progs.append(("prog", [enc(100), 177, 117, 81], 500, own, ver, pre))
+                        progs.append(("prog", [enc(500000100), 177, 117, 81], 500000200, own, ver, pre))
+                        progs.append(("prog", [enc(3), 178, 117, 81], 0, own, ver, pre))
     # straight-line programs whose first evaluation fails half-way (a consumed command list would accept the rest)
     for cmds in ([0, 105, 81], [85, 86, 136, 81], [108, 81, 81], [81, 99, 0, 105, 104, 81], [0, 100, 0, 105, 104, 81],
                  [81, 81, 135, 105, 0, 105, 81], [82, 83, 147, 85, 135], [81]):
@@ -881,8 +942,8 @@ def replay(ctx, v):
     if "pred" in case:
         ok, _, _ = eval_pred(case["pred"], case)
         return not ok
-    line = case["line"]
-    impl = impl_line(line)
+    impl = impl_line(case["line"])
+    line = strip_ctx(case["line"])          # the driver sees the spent input's sequence only
     if line.startswith("evalseq "):
         t = line.split(" ")
         single = ("spec_eval " if case.get("oracle") == "spec" else f"eval {t[1]} ") + " ".join(t[3:])
